@@ -470,6 +470,7 @@ func slabDeltas(p *load.Program, run *report.Run, fn *ssa.Function, forms map[[3
 		gates := &fpai.SymSlice{Name: "gates", M: map[string]*fpai.Obj{"0": newGate(op)}, Len: fpai.IntV{K: 1}}
 		var phis []*ssa.Phi
 		var cells []*fpai.Obj
+		var structCell *fpai.Obj
 		for _, v := range free {
 			switch {
 			case types.Identical(v.Type(), types.NewSlice(gateT)):
@@ -497,6 +498,25 @@ func slabDeltas(p *load.Program, run *report.Run, fn *ssa.Function, forms map[[3
 					case types.Identical(pt.Elem(), types.NewPointer(circT)):
 						env[v] = fpai.PtrV{O: &fpai.Obj{V: fpai.PtrV{O: circ}}}
 					default:
+						// a record of sizes kept in a struct (dims.rows += 2): every integer field starts as
+						// its own symbol, the one the loop adds to is the accumulator
+						if st, isStruct := pt.Elem().Underlying().(*types.Struct); isStruct && structCell == nil {
+							zv, isSV := fpai.ZeroVal(pt.Elem()).(fpai.StructV)
+							ints := 0
+							if isSV {
+								for i := 0; i < st.NumFields(); i++ {
+									if bt, ok := st.Field(i).Type().Underlying().(*types.Basic); ok && bt.Info()&types.IsInteger != 0 {
+										zv.F[i] = fpai.IntV{Sym: fmt.Sprintf("fld%d", i)}
+										ints++
+									}
+								}
+							}
+							if isSV && ints > 0 {
+								structCell = &fpai.Obj{V: zv}
+								env[v] = fpai.PtrV{O: structCell}
+								break
+							}
+						}
 						env[v] = fpai.OpaqueV{Name: v.Name()}
 					}
 				} else if bt, ok := v.Type().Underlying().(*types.Basic); ok && bt.Info()&types.IsInteger != 0 {
@@ -507,7 +527,7 @@ func slabDeltas(p *load.Program, run *report.Run, fn *ssa.Function, forms map[[3
 			}
 		}
 		key := fmt.Sprintf("%s/%s", fn.RelString(nil), opNames[op])
-		if len(phis)+len(cells) != 1 {
+		if len(phis)+len(cells) != 1 && !(len(phis)+len(cells) == 0 && structCell != nil) {
 			run.Undecided("O8-slab", key, p.Rel(fn.Pos()), fmt.Sprintf("slab accumulator not identified (%d candidates)", len(phis)+len(cells)))
 			continue
 		}
@@ -522,7 +542,23 @@ func slabDeltas(p *load.Program, run *report.Run, fn *ssa.Function, forms map[[3
 			continue
 		}
 		var next fpai.Val
-		if len(cells) == 1 {
+		if len(phis)+len(cells) == 0 && structCell != nil {
+			// the field that grew
+			if sv, ok := structCell.V.(fpai.StructV); ok {
+				grown := 0
+				for i, f := range sv.F {
+					if iv, ok := f.(fpai.IntV); ok && iv.Sym == fmt.Sprintf("fld%d", i) && iv.K != 0 {
+						next = fpai.IntV{Sym: "slab0", K: iv.K}
+						grown++
+					}
+				}
+				if grown == 0 {
+					next = fpai.IntV{Sym: "slab0"}
+				} else if grown > 1 {
+					next = nil
+				}
+			}
+		} else if len(cells) == 1 {
 			next = cells[0].V
 		} else {
 			for k, pred := range loop.Header.Preds {
